@@ -307,7 +307,9 @@ class CompositeFrontend(ConstrainedFrontend):
     #
 
     def _ensure_sat(self, extra_constraints):
-        if self._unsat or (len(extra_constraints) == 0 and not self.satisfiable()):
+        # the query below only involves the children that share variables with it; an unsatisfiable child elsewhere
+        # must still make it fail, with or without extra constraints (the answer is cached by SatCacheMixin)
+        if self._unsat or not self.satisfiable():
             raise UnsatError("CompositeSolver is already unsat")
 
     def check_satisfiability(self, extra_constraints=(), exact=None):
